@@ -95,6 +95,7 @@ fn check<C: Pv>(c: &Case) -> Report {
         recompose: c.prog.recompose_npo,
         debug_lookups: false,
         poseidon2: None,
+        poseidon1: None,
     };
     match C::prove_verify(&circuit, &traces, &pk, &npo) {
         Ok(()) => rep.class("outcome:proved+verified"),
